@@ -3807,3 +3807,57 @@ func c06R10(c *Ctx, r *Report) {
 	r.Check(ok, rule, fn.Name(), "storage shared through a field or an element is recognised", where,
 		"only a value that is itself a dynamic array or a map counts as sharing storage when copied: `const s: S = {.Items = [1, 2, 3]}; let t := s; t.Items[0] = 9;` is accepted and changes the constant's array")
 }
+
+// ---- C15.R12: every module's functions carry the module prefix ---------------------------------------------------
+
+func init() {
+	lateInits = append(lateInits, func() {
+		props["C15"].Quick = append(props["C15"].Quick, c15R12)
+		props["C15"].Explanation += " (R12) in both back ends the function-name builder leaves a name without the module prefix only for `main` or an empty import path: the functions of the entry module are prefixed like all others, so none of them can coincide with the prefixed name of another module's function."
+	})
+}
+
+func c15R12(c *Ctx, r *Report) {
+	const rule = "C15.R12"
+	r.Describe(rule, "qbe.qbeFuncName, wasm.funcName: the condition under which the module prefix is added is a conjunction of tests of the function name against \"main\" and of the import path against \"\" only")
+	for _, sd := range []struct{ pkg, fn string }{{pkgQBE, "(*Generator).qbeFuncName"}, {pkgWasm, "(*Generator).funcName"}} {
+		fn := c.LookupFn(sd.pkg, sd.fn)
+		if !r.Anchor(rule, fn != nil, sd.pkg+"."+sd.fn) {
+			continue
+		}
+		info := fn.Info()
+		var guard *ast.IfStmt
+		ast.Inspect(fn.Decl.Body, func(x ast.Node) bool {
+			if ifs, ok := x.(*ast.IfStmt); ok && guard == nil {
+				if len(ifs.Body.List) > 0 {
+					if _, isRet := ifs.Body.List[len(ifs.Body.List)-1].(*ast.ReturnStmt); isRet {
+						guard = ifs
+					}
+				}
+			}
+			return true
+		})
+		if !r.Anchor(rule, guard != nil, fn.Name()+": if … { return prefix + … }") {
+			continue
+		}
+		bad := ""
+		for _, cj := range conjuncts(guard.Cond) {
+			be, ok := isBinOp(cj, token.NEQ)
+			if !ok {
+				bad = exprStr(cj)
+				continue
+			}
+			v := constOf(info, be.Y)
+			o := objOf(info, be.X)
+			if v == nil || v.Kind() != constant.String || o == nil || !isParamOf(fn, o) {
+				bad = exprStr(cj)
+				continue
+			}
+			if s := constant.StringVal(v); s != "main" && s != "" {
+				bad = exprStr(cj)
+			}
+		}
+		r.Check(bad == "", rule, fn.Name(), "only main goes without the module prefix", c.pos(guard.Pos()),
+			"the prefix is left off under the further condition `"+bad+"`: the functions of that module keep their source names, and one of them can spell the prefixed name of another module's function — `fn mang_0a_F()` in the entry module and `F` in module mang/a are both emitted as mang_0a_F (\"multiple definition\", link failure)")
+	}
+}
